@@ -459,6 +459,17 @@ open EncJson Spec
 
 /-! ## forwards equations, for evaluating `forType` on examples -/
 
+/-- writing back the node that is there -/
+theorem set!_get?_self {st : Store} {i : NodeId} {n : Node} (h : st.get? i = some n) : st.set! i n = st := by
+  apply Array.ext_getElem?
+  intro j
+  rw [Array.set!_eq_setIfInBounds, Array.getElem?_setIfInBounds]
+  by_cases hj : i = j
+  · subst hj
+    have h' : st[i]? = some n := h
+    simp only [if_true, lt_size_of_get? h, h']
+  · simp [hj]
+
 /-- one step of `CloneSchemas` on a schema without subschemas -/
 theorem cloneStep_leaf {rec : CRec} {st : Store} {sid : NodeId} {m : Node} (h : st.get? sid = some m) (L : LeafSchema m) :
     cloneStep rec sid st = .ok (st.size, st.push m) := by
